@@ -25,8 +25,8 @@ fn mkinst(u) { var i = Inst.new(); i.a = [u, "a" + "x"]; i.b = (u, "b"); return 
 fn mkclo(x) { return || { return x; }; }
 fn getiter(v) { return v.iter; }
 fn emptyslices(t) { var a = t[1..1]; a = nil; churn(1); var b = t[0..0]; churn(1); var c = t[2..2]; churn(1); return [b.len(), c.len(), t[1..1].len(), b == c, type(b) == type(t)]; }
-fn evict() { var t = 0; for q in [20..21, 20..22, 20..23, 20..24, 20..25, 20..26, 20..27, 20..28, 20..29, 20..30] { t = t + 1; } return t; }
-fn rangekey(u) { var m = {(u..(u + 4)): [u]}; evict(); churn(1); var t = 0; for r in m.keys() { for x in r { t = t + x; } } return [t, m.len(), m.values()]; }
+fn evict10() { var t = 0; for q in [20..21, 20..22, 20..23, 20..24, 20..25, 20..26, 20..27, 20..28, 20..29, 20..30] { t = t + 1; } return t; }
+fn rangekey(u) { var m = {(u..(u + 4)): [u]}; evict10(); churn(1); var t = 0; for r in m.keys() { for x in r { t = t + x; } } return [t, m.len(), m.values()]; }
 fn rsum(v) { var t = 0; for r in v { for x in r { t = t + x; } } return t; }
 fn rangeeq(u) { var a = u..(u + 3); var m = {a: [u]}; churn(1); return (a == u..(u + 3), m.has_key(u..(u + 3)), m.get(u..(u + 3))); }
 fn drain_twice(it) { var n = 0; for x in it { n = n + 1; } churn(1); for x in it { n = n + 100; } churn(1); try { it.next(); n = n + 1000; } catch e { n = n + 10; } return n; }
@@ -588,7 +588,10 @@ class C01:
                         return res
         stats.inc("allocations", (ref.get("gc") or {}).get("allocs", 0))
         if any(o_[1] for o_ in ref_outs):
+            # every failing operation of a generated program is wrapped in try/catch: a reference run that ends with an error
+            # means the generator wrote a wrong program (counted by the harness as an invalid case)
             stats.inc("reference_run_ended_with_error")
+            return {"stats": stats, "nontrivial": False, "invalid": "reference run ended with %s" % json.dumps(ref_outs)[:200]}
         if ir.get("reset"):
             stats.inc("scenarios_with_reset")
         res["sample"] = {"source_tail": src[len(PRELUDE):], "reference_events": ref_events[:10]}
